@@ -25,7 +25,7 @@ COMPONENTS = {"real": ["ECAgent.Core.Environment add_agent / remove_agent / get_
               "stub": ["agents and component classes are harness-defined"]}
 PROBES = ["dup_same_object", "dup_other_object", "unknown_remove", "unknown_strict_lookup", "oob_x_lo", "oob_x_hi",
           "oob_y_lo", "oob_y_hi", "oob_z_lo", "oob_z_hi", "oob_far", "reject_on_empty_environment", "remove_from_middle",
-          "readd_after_remove", "plain_env", "spatial_env", "model_lifecycle_op", "caller_scrambles_listing"]
+          "readd_after_remove", "plain_env", "spatial_env", "model_lifecycle_op", "caller_scrambles_listing", "oob_fractional_in_grid"]
 TECHNIQUE = "deterministic simulation: every rejection injected at states reached by seeded add/remove histories, full observable snapshot compared before/after, insertion-ordered map reference"
 LEVEL_TEXT = ("Seeded search over add/remove histories with colliding ids; after every operation length, iteration, listing and "
               "lookup must agree with an insertion-ordered reference; each injected rejection must raise the documented class "
@@ -70,7 +70,7 @@ def generate(rng, tier):
             ops.append({"op": "lookup", "id": rng.choice(ids + ["ghost"]), "strict": rng.random() < 0.5})
         elif r < 0.86:
             ops.append({"op": "oob", "k": k, "axis": rng.randrange(3), "side": rng.choice(["lo", "hi"]),
-                        "far": rng.random() < 0.3, "frac": [rng.random() for _ in range(3)]})
+                        "far": rng.random() < 0.3, "half": rng.random() < 0.3, "frac": [rng.random() for _ in range(3)]})
         elif r < 0.93:
             ops.append({"op": "observe"})
         elif r < 0.96:
@@ -226,7 +226,12 @@ def execute(sc, ctx):
             ctx.probe(f"oob_{'xyz'[ax]}_{op['side']}")
             if op["far"]:
                 ctx.probe("oob_far")
-            rejected("add-out-of-bounds", Exception, env.add_agent, a, *ref.real(p))
+            coords = list(ref.real(p))
+            if op.get("half") and ref.den == 1 and not op["far"]:
+                # grid world, non-integral coordinate strictly between the last cell and the next (or between -1 and 0)
+                coords[ax] = (ref.hi(ax) + 0.5) if op["side"] == "hi" else -0.5
+                ctx.probe("oob_fractional_in_grid")
+            rejected("add-out-of-bounds", Exception, env.add_agent, a, *coords)
             shape.append(["oob", ax, op["side"], len(residents)])
             ctx.event("oob", k, p)
         elif kind == "lifecycle":
